@@ -210,8 +210,43 @@ func evenDCs(o *placeOp) (int, bool) {
 	return len(cnt), len(cnt) > 0
 }
 
+// longDeadLists counts the old lists longer than the replication factor with a dead member among the
+// positions the fill loop looks at; covering = how many of them also contain every live node (the shape of
+// the former finding F5: before the repair every live member of such a list was excluded as a replacement,
+// so no candidate was left; now the extra members are candidates).
+func longDeadLists(o *placeOp) (n int, covering int) {
+	for _, p := range o.old {
+		if len(p) <= o.replica {
+			continue
+		}
+		dead := false
+		for j := 0; j < o.replica; j++ {
+			if _, ok := o.dc[p[j]]; !ok {
+				dead = true
+				break
+			}
+		}
+		if !dead {
+			continue
+		}
+		n++
+		all := true
+		for _, id := range o.ids {
+			if cluster.FindSlice(p, id) == -1 {
+				all = false
+				break
+			}
+		}
+		if all {
+			covering++
+		}
+	}
+	return n, covering
+}
+
 func oldStats(o *placeOp) string {
-	maxLen, dead0, longDead := 0, 0, 0
+	maxLen, dead0 := 0, 0
+	longDead, _ := longDeadLists(o)
 	for _, p := range o.old {
 		if len(p) > maxLen {
 			maxLen = len(p)
@@ -219,16 +254,6 @@ func oldStats(o *placeOp) string {
 		if len(p) > 0 {
 			if _, ok := o.dc[p[0]]; !ok {
 				dead0++
-			}
-		}
-		if len(p) > o.replica {
-			// a list longer than the replication factor with a dead member among the positions the
-			// fill loop looks at: every live member of the list is excluded as a replacement
-			for j := 0; j < o.replica; j++ {
-				if _, ok := o.dc[p[j]]; !ok {
-					longDead++
-					break
-				}
 			}
 		}
 	}
@@ -345,6 +370,15 @@ func newPlace(c *Ctx) func(string) string {
 		c.Note("alg/" + o.alg)
 		if o.old != nil {
 			c.Note("old/non-empty")
+		}
+		if o.alg == "v2" && len(o.ids) >= o.replica && o.parts >= len(o.old) {
+			// the repaired branch: an extra old member may replace a dead one
+			if k, cov := longDeadLists(o); k > 0 {
+				c.Note("old/longer-than-replica-with-dead-member")
+				if cov > 0 {
+					c.Note("old/former-F5-shape")
+				}
+			}
 		}
 		return outcome
 	}
